@@ -291,6 +291,12 @@ def run_case(case, strict=False):  # noqa: C901  pylint: disable=too-many-branch
                 t = (1.15 + case["t"] * (arc_len - 2.3)) / arc_len
                 a = a0 + want_sweep * t
                 reg = {"type": "circ", "cx": (cx + r * math.cos(a)) * unit, "cy": (cy + r * math.sin(a)) * unit, "r": 1.05 * unit, "id": "deep"}
+                if int(case["t"] * 1000) % 3 == 0:
+                    # ... or the square around that point, its corners given in any order
+                    o_ = int(case["t"] * 100) % 4
+                    xs_, ys_ = [reg["cx"] - 1.05 * unit, reg["cx"] + 1.05 * unit], [reg["cy"] - 1.05 * unit, reg["cy"] + 1.05 * unit]
+                    reg = {"type": "rect", "x1": xs_[o_ & 1], "x2": xs_[1 - (o_ & 1)], "y1": ys_[(o_ >> 1) & 1], "y2": ys_[1 - ((o_ >> 1) & 1)], "id": "deep"}
+                    cl.add("e2e_deep_rect")
                 f2 = core.DirectFilter({}, [reg])
                 if case.get("new_print"):
                     for c in ("G28", "G1 X150.05 Y180.99 Z0.2 F3000", "G91", "G1 X1"):
@@ -310,6 +316,17 @@ def run_case(case, strict=False):  # noqa: C901  pylint: disable=too-many-branch
                         if cmd in res:
                             bad("c16_deep_arc_forwarded", "%r (lap %d) from (%r,%r) passes through the centre of %r but was forwarded" % (cmd, lap + 1, sx, sy, reg))
                             break
+                    if not out and int(case["t"] * 1000) % 2 == 0:
+                        # a new file is selected (all regions gone), the same arc is printed again: nothing is in its way now
+                        f2.state.resetState(True)
+                        f2.gcode("G28")
+                        if unit != 1.0:
+                            f2.gcode("G20")
+                        f2.gcode("G1 X%r Y%r Z0.2 F3000" % (sx, sy))
+                        res = core.normalise(cmd, f2.gcode(cmd))
+                        cl.add("e2e_regions_cleared")
+                        if res != [cmd]:
+                            bad("c16_clear_arc_altered", "%r after all regions were cleared was not forwarded verbatim: %r" % (cmd, res))
             elif case["e2e"] == "clear":
                 reg = {"type": "rect", "x1": (cx + r + 1.5) * unit, "y1": (cy - r) * unit, "x2": (cx + r + 6) * unit, "y2": (cy + r) * unit, "id": "clear"}
                 f2 = core.DirectFilter({}, [reg])
